@@ -529,6 +529,12 @@ func c11(r *core.Report) {
 	r.Rule("C11-HUB-FENCE", "AskHub.Deliver: once a server took the request every path waits for the handler's completion signal before returning", 4)
 	ruleCommit(r, h, "C11-HUB-FENCE", "AskHub.Deliver")
 
+	// ---- C11-QUIC-ADDRESSEE (shared with C04-QUIC): an Ask addressed to identity X at a transport address is
+	// answered by X's handler: a cached session is found under a key that contains the identity, a dialled one
+	// is used only after the identity check
+	r.Rule("C11-QUIC-ADDRESSEE", "quicswarm sends an Ask only on a session whose authenticated identity is the requested one (dial check, identity in the cache key)", 2)
+	ruleQuicAddressee(r, "C11-QUIC-ADDRESSEE")
+
 	// ---- C11-OFFSET-ORDER-FREE (shared with C10): a multi-part reply is the handler's bytes only if each
 	// part is placed independently of the order of arrival
 	r.Rule("C11-OFFSET-ORDER-FREE", "the position a fragment of a request/reply is copied to depends on that fragment and on fields fixed at construction only", 1)
